@@ -55,7 +55,7 @@ func runC05(w *World, r *Report) {
 	restoreTasks := w.Fn("compose", "runner.restoreTasks")
 	createTasks := w.Fn("compose", "runner.createTasks")
 	fwd := w.Fn("compose", "forwardCheckPoint")
-	clr := w.Fn("compose", "clearCheckPoint")
+	clr := w.TryFn("compose", "clearCheckPoint")
 
 	// ---- stream-pairs-set: the stream<->value converters the checkpointer uses are real functions
 	r.Rule("C05.stream-pairs-set", "every streamConvertPair handed to the checkpointer comes from a field that is written somewhere (a never-written pair is two nil functions: converting a pending stream for the checkpoint panics)", 3)
@@ -275,6 +275,8 @@ func runC05(w *World, r *Report) {
 
 	shareRule(w, r, "C05.conversion-tables-read-only", "converting a checkpoint writes nothing into the compiled graph's tables (the stream pairs by sender are shared by every receiver and every later run): per-edge overrides go into a copy", 0, "C09", "C09.read-only-at-runtime")
 	shareRule(w, r, "C05.map-keys-read-as-written", "the serialiser reads a map key back by the rule it wrote it with (a named string key is not written raw and read as JSON): a state with map[schema.RoleType]… survives the byte store", 1, "C12", "C12.key-codec-symmetric")
+	shareRule(w, r, "C05.agent-state-fields-exported", "the fields of the bundled agents' state are exported: the byte store writes exported fields only and skips the rest silently, so an unexported field (the return-directly call id) comes back empty after a resume", 1, "C12", "C12.registered-exported")
+	shareRule(w, r, "C05.interrupt-collects-every-task", "an interrupt waits for every task of the step, also behind a task that carries an error (a rerun request travels in task.err): a sibling that finishes later is otherwise neither parked in its successors' channels nor saved", 1, "C03", "C03.wait-all-drains")
 
 	// ---- load-errors-kept
 	r.Rule("C05.load-errors-kept", "on the save / load path (package compose, internal/serialization) a success return after an error-yielding call is reached only where that error was tested nil: a checkpoint that cannot be read back is an error of the resume, never 'no checkpoint, start over' (shared with C13.no-dropped-error)", 1)
@@ -639,13 +641,13 @@ func runC05(w *World, r *Report) {
 		if !ok || !sameField(fieldVarOfAddr(fa), fCtx) || namedOf(fa.X.Type()) != taskT {
 			return
 		}
-		if c, ok := st.Val.(*ssa.Call); ok && isCallTo(c, clr) {
+		if c, ok := st.Val.(*ssa.Call); ok && clr != nil && isCallTo(c, clr) {
 			okc = true
 		}
 	})
 	r.Check(okc, "C05.nested-once", "createTasks: fresh task context has the checkpoint cleared", createTasks.Pos(), "ctx: clearCheckPoint(...)", "freshly scheduled nodes inherit the run's checkpoint: a nested graph executed again later resumes from the stale nested checkpoint")
 	// clearCheckPoint really clears: returns ctx unchanged only when no checkpoint, else WithValue(checkPointKey, nil)
-	{
+	if clr != nil {
 		okk := false
 		instrs(clr, func(in ssa.Instruction) {
 			if c, ok := in.(*ssa.Call); ok && calleeFullName(c) == "context.WithValue" {
@@ -663,7 +665,12 @@ func runC05(w *World, r *Report) {
 // at all (getCheckPointFromCtx(ctx) == nil dominates the return) — under any weaker condition a freshly scheduled
 // nested graph finds the enclosing graph's checkpoint in its context and restores itself from it.
 func clearCheckPointExact(w *World, r *Report, rule string) {
-	clr := w.Fn("compose", "clearCheckPoint")
+	clr := w.TryFn("compose", "clearCheckPoint")
+	if clr == nil {
+		// the subject of the rule is gone: that is the violation (freshly scheduled nodes have no clearing step), not a lost anchor
+		r.Fail(rule, "the checkpoint is cleared for freshly scheduled nodes", w.Fn("compose", "runner.createTasks").Pos(), "clearCheckPoint no longer exists: createTasks cannot hand a freshly scheduled node a context without the checkpoint the run was resumed from — a nested graph scheduled again later in a resumed run restarts from the stale nested checkpoint, reuses the finished execution's state and ignores its new input")
+		return
+	}
 	get := w.Fn("compose", "getCheckPointFromCtx")
 	n := 0
 	instrs(clr, func(in ssa.Instruction) {
